@@ -1,5 +1,124 @@
-import PasslibVerif.Model.Context
+import PasslibVerif.Lemmas.ContextFresh
+import PasslibVerif.Model.LibpassCtx
+/-
+C04 — CryptContext identifies, verifies, flags and rehashes exactly per its policy.
+Facts about individual hash strings (who claims it, parsed cost, scheme flag, verifies) are atoms.
+-/
 namespace Props.C04
-open Model.Context
-theorem placeholder : (none : Cat) = none := rfl
+open Py Model.Rounds Model.Context Lemmas.Context Lemmas.Rounds
+
+/-- the hash is attributed to the FIRST configured scheme that claims it -/
+theorem identify_first_claimer (c : Cfg) (h : HashFacts) (s : SchemeInfo) (hi : identify c h = .ok s) :
+    ∃ pre post, c.schemes = pre ++ s :: post ∧ h.claims s.name = true ∧ ∀ t ∈ pre, h.claims t.name = false :=
+  Lemmas.Context.identify_first_claimer c h s hi
+
+theorem identify_unknown (c : Cfg) (h : HashFacts) (hn : ∀ s ∈ c.schemes, h.claims s.name = false) :
+    identify c h = .error .unknownHash := Lemmas.Context.identify_unknown c h hn
+
+/-- new hashes are made with the category's default scheme and the cost its record generates -/
+theorem hash_by_default_scheme (c : Cfg) (cat : Cat) (draw : Nat) (fv : Int) (d : String) (n : Option Int)
+    (hh : hashCtx c cat draw fv = .ok (d, n)) :
+    defaultScheme c cat = .ok d ∧ ∃ s r, s ∈ c.schemes ∧ s.name = d ∧ getRecord c s cat = .ok r ∧
+      (match r.cls with | none => n = none | some cls => ∃ k, generateRounds cls draw fv = .ok k ∧ n = some k) :=
+  Lemmas.Context.hash_by_default_scheme c cat draw fv d n hh
+
+/-- needs updating ⇔ scheme deprecated for the category ∨ the scheme itself flags it ∨ cost outside the limits -/
+theorem needs_update_iff (c : Cfg) (h : HashFacts) (cat : Cat) (b : Bool) (hn : needsUpdateCtx c h cat = .ok b) :
+    ∃ s r, identify c h = .ok s ∧ getRecord c s cat = .ok r ∧
+      b = (r.deprecated || h.selfFlag ||
+        (match r.cls, h.rounds with | some cls, some n => needsUpdate cls n | _, _ => false)) :=
+  Lemmas.Context.needs_update_iff c h cat b hn
+
+/-- "cost outside the configured limits", spelled out -/
+theorem cost_flag_is_outside_window (cls : Cls) (hodd : cls.forceOdd = false) (n : Int) :
+    needsUpdate cls n = false ↔ InWindow cls.minDesired cls.maxDesired n := by
+  unfold needsUpdate; simp only [hodd, Bool.false_and, Bool.false_or]; exact outsideWin_iff _ _ n
+
+/-- (False, None) | (True, None) | (True, new) with `new` = what hash() produces for the category -/
+theorem vau_trichotomy (c : Cfg) (h : HashFacts) (cat : Cat) (draw : Nat) (fv : Int) (o : VauOut)
+    (hv : verifyAndUpdate c h cat draw fv = .ok o) :
+    ∃ s r, identify c h = .ok s ∧ getRecord c s cat = .ok r ∧
+      ((h.verifies = .ok false ∧ o = .fail) ∨
+       (h.verifies = .ok true ∧ recordNeedsUpdate r h = false ∧ o = .ok) ∨
+       (h.verifies = .ok true ∧ recordNeedsUpdate r h = true ∧
+          ∃ d n, hashCtx c cat draw fv = .ok (d, n) ∧ o = .rehash d n)) :=
+  Lemmas.Context.vau_trichotomy c h cat draw fv o hv
+
+/-- a category's default scheme is never deprecated for that category ('auto' included) -/
+theorem default_not_deprecated (c : Cfg) (cat : Cat) (d : String) (hd : defaultScheme c cat = .ok d) :
+    (isDeprecatedWithFlag c d cat).1 = false := Lemmas.Context.default_not_deprecated c cat d hd
+
+/-- a hash the context has just produced never needs updating under the same context and category.
+    Hypotheses: the hashers' own classes have sane limits and do not post-process generated costs; the fresh
+    hash is attributed to the scheme that made it and reports the cost it was made with (C01/C07/C17). -/
+theorem fresh_never_flagged (c : Cfg) (cat : Cat) (draw : Nat) (fv : Int) (d : String) (n : Option Int) (h : HashFacts)
+    (hbase : ∀ s ∈ c.schemes, ∀ b, s.base = some b → BaseOK b ∧ b.forceOdd = false)
+    (hh : hashCtx c cat draw fv = .ok (d, n))
+    (hid : ∀ s, c.schemes.find? (·.name = d) = some s → identify c h = .ok s)
+    (hrounds : h.rounds = n) (hflag : h.selfFlag = false) :
+    needsUpdateCtx c h cat = .ok false :=
+  Lemmas.Context.fresh_never_flagged c cat draw fv d n h hbase hh hid hrounds hflag
+
+/-- hence verify_and_update reaches its fixed point in one step: the replacement hash it returns
+    (same hypotheses about that hash) gives (True, None) next time -/
+theorem vau_fixed_point_in_one_step (c : Cfg) (cat : Cat) (draw : Nat) (fv : Int) (d : String) (n : Option Int)
+    (hnew : HashFacts) (draw2 : Nat)
+    (hbase : ∀ s ∈ c.schemes, ∀ b, s.base = some b → BaseOK b ∧ b.forceOdd = false)
+    (hh : hashCtx c cat draw fv = .ok (d, n))
+    (hid : ∀ s, c.schemes.find? (·.name = d) = some s → identify c hnew = .ok s)
+    (hrounds : hnew.rounds = n) (hflag : hnew.selfFlag = false) (hver : hnew.verifies = .ok true) :
+    verifyAndUpdate c hnew cat draw2 fv = .ok .ok := by
+  have hnu := fresh_never_flagged c cat draw fv d n hnew hbase hh hid hrounds hflag
+  obtain ⟨s, r, hi, hr, hb⟩ := Lemmas.Context.needs_update_iff c hnew cat false hnu
+  unfold verifyAndUpdate
+  simp only [hi, hr, hver]
+  have : recordNeedsUpdate r hnew = false := by unfold recordNeedsUpdate; exact hb.symm
+  simp [this]
+
+/-! ### recorded finding: bsdi_crypt's forced-odd rounds against an even maximum -/
+def bsdiInfo : SchemeInfo :=
+  ⟨"bsdi_crypt", some ⟨1, some 16777215, none, none, some 5001, .none, true⟩,
+   ["salt", "rounds", "min_desired_rounds", "max_desired_rounds", "min_rounds", "max_rounds", "default_rounds", "vary_rounds"], false⟩
+
+def bsdiCfg : Cfg :=
+  ⟨[bsdiInfo], [], [], [(("bsdi_crypt", none), [("max_rounds", .rounds (.int 6000)), ("default_rounds", .rounds (.int 6000))])]⟩
+
+theorem bsdi_fresh_hash_flagged_counterexample :
+    hashCtx bsdiCfg none 0 0 = .ok ("bsdi_crypt", some 6001) ∧
+    needsUpdateCtx bsdiCfg ⟨fun s => s == "bsdi_crypt", some 6001, false, .ok true⟩ none = .ok true := by
+  constructor <;> decide
+
+/-! ### libpass.context.CryptContext -/
+open Model.LibpassCtx in
+theorem libpass_hash_first (schemes : List Hasher) (s : Hasher) (rest : List Hasher) (h : schemes = s :: rest) :
+    Model.LibpassCtx.defaultScheme schemes = some s := by subst h; rfl
+
+open Model.LibpassCtx in
+theorem libpass_verify_any (schemes : List Hasher) (secret hash : List Nat) :
+    verifyCtx schemes secret hash = true ↔ ∃ s ∈ schemes, s.verify secret hash = true := by
+  unfold verifyCtx; simp [List.any_eq_true]
+
+open Model.LibpassCtx in
+/-- update needed ⇔ the hash is not in the first scheme's format (schemes pairwise distinct objects) -/
+theorem libpass_needs_update_iff_not_first_format (s : Hasher) (rest : List Hasher) (hash : List Nat)
+    (hdist : ∀ t ∈ rest, t.id ≠ s.id) :
+    Model.LibpassCtx.needsUpdate (s :: rest) hash = !s.identify hash := by
+  unfold Model.LibpassCtx.needsUpdate deprecatedSchemes
+  simp only [List.tail_cons, List.filter_cons]
+  have h1 : (rest.any fun x => x.id == s.id) = false := by
+    rw [List.any_eq_false]; intro t ht; simpa using hdist t ht
+  simp only [h1, Bool.not_false, if_true, List.all_cons]
+  have h2 : (rest.filter fun x => !(rest.any fun y => y.id == x.id)) = [] := by
+    rw [List.filter_eq_nil_iff]; intro t ht
+    simp only [Bool.not_eq_true, Bool.not_eq_false', List.any_eq_true]
+    exact ⟨t, ht, by simp⟩
+  simp [h2]
+
+/-! non-vacuity -/
+def shaInfo : SchemeInfo :=
+  ⟨"sha256_crypt", some ⟨1000, some 999999999, none, none, some 535000, .none, false⟩,
+   ["salt", "rounds", "min_rounds", "max_rounds", "default_rounds", "vary_rounds"], false⟩
+example : hashCtx ⟨[shaInfo], [], [], [(("sha256_crypt", none), [("min_rounds", .rounds (.int 2000)), ("max_rounds", .rounds (.int 3000)),
+    ("default_rounds", .rounds (.int 2500))])]⟩ none 7 0 = .ok ("sha256_crypt", some 2500) := by decide
+
 end Props.C04
